@@ -114,6 +114,16 @@ func drawStop(rt *rapid.T, o gen.HistOpt, kinds []string) *StopCase {
 		c.Fault = Fault{Kind: k, At: rapid.IntRange(0, 20).Draw(rt, "deadline_ticks")}
 	default:
 		c.Fault = drawFault(rt, []string{k}, nsteps, ntx)
+		if isMasterFault(k) && rapid.IntRange(0, 2).Draw(rt, "after_first_commit") != 0 {
+			// steer the stop point behind the first commit event so that a delivery precedes it
+			_, evIdx, _ := l.Served(c.H.FirstFile, c.H.Base)
+			for i, ev := range evIdx {
+				if ev >= 0 && l.Events[ev].Commit && i+1 <= nsteps-1 {
+					c.Fault.At = rapid.IntRange(i+1, nsteps-1).Draw(rt, "fault_at_late")
+					break
+				}
+			}
+		}
 	}
 	c.Pacing = rapid.IntRange(0, 1).Draw(rt, "pacing")
 	c.Handler = rapid.IntRange(0, 2).Draw(rt, "handler_mode")
